@@ -2,11 +2,11 @@
 (***************************************************************************************)
 (* All streams of at most MaxLen symbols. TLC runs the design-level server loop on each   *)
 (* and checks it against the contract:                                                   *)
-(*   InvConforms   at Done the responses conform -- for every stream when the server      *)
-(*                 discards oversized bodies, and for every stream without an oversized   *)
-(*                 frame when it behaves as client.rs is written;                         *)
+(*   InvConforms   at Done the responses conform to the contract;                         *)
 (*   InvPrefix     the responses written so far never run ahead of / differ from the      *)
-(*                 expected list (same restriction).                                     *)
+(*                 expected list.                                                        *)
+(* With DiscardOversized = FALSE (mutant config) TLC must report a violation: the          *)
+(* contract is able to reject a server that leaves an oversized body in the socket.        *)
 (* `Emit` (always true) prints for every stream, at Done: the stream, its frames, the     *)
 (* expected responses, the tail slack and whether the design-level server conformed. The   *)
 (* runner instantiates every printed stream with concrete bytes for the real listener.    *)
@@ -22,13 +22,11 @@ MCSpec == MCInit /\ [][Next]_vars
 
 IsPrefix(a, b) == Len(a) <= Len(b) /\ SubSeq(b, 1, Len(a)) = a
 
-InScope == ConsumeOversized \/ ~HasOversized(stream)
-
-InvConforms == (pc = "Done" /\ InScope) => Conforms(stream, resp)
-InvPrefix   == InScope => (IsPrefix(resp, Expected(stream)) \/ Conforms(stream, resp))
+InvConforms == pc = "Done" => Conforms(stream, resp)
+InvPrefix   == IsPrefix(resp, Expected(stream)) \/ Conforms(stream, resp)
 
 TypeOK ==
-  /\ pc \in {"ReadLen", "RejectLen", "ReadBody", "RejectUtf8", "Dispatch", "Respond", "Done"}
+  /\ pc \in {"ReadLen", "RejectLen", "DiscardBody", "ReadBody", "RejectUtf8", "Dispatch", "Respond", "Done"}
   /\ pos \in 1 .. Len(stream) + 1
   /\ \A i \in 1 .. Len(resp) : resp[i].k \in {"ERR", "OK", "EMPTY", "VAL"}
 
